@@ -145,6 +145,11 @@ func (m *Machine) externalUncached(fn *ssa.Function) externalFn {
 			return native(m, caller, fn, args)
 		}
 	}
+	if name == "strings.ToValidUTF8" && fn.Blocks != nil {
+		// interpreted from its real source (strings.Builder is modelled, unicode/utf8 is interpreted): invalid
+		// byte sequences in a symbolic string are the solver's to find
+		return nil
+	}
 	switch name {
 	case "strings.TrimRight", "strings.TrimLeft", "strings.Trim":
 		native := bridgeCall(name, nativeBridge[name])
@@ -244,6 +249,9 @@ func init() {
 			b := m.builderOf(a[0])
 			b.bs, b.taint = nil, false
 			return nil
+		}
+		models["(*strings.Builder).Cap"] = func(m *Machine, c *frame, fn *ssa.Function, a []value) value {
+			return mkConst(64, uint64(len(m.builderOf(a[0]).bs)))
 		}
 		models["(*strings.Builder).Grow"] = func(m *Machine, c *frame, fn *ssa.Function, a []value) value { return nil }
 	}
